@@ -112,8 +112,7 @@ func runCalc(args ...string) (string, error) {
 		bin = filepath.Join(verifRoot(), ".build", "calcbatch")
 	}
 	cmd := exec.Command(bin, args...)
-	out, err := cmd.CombinedOutput()
-	return string(out), err
+	return runChild(cmd, 2*time.Minute, nil)
 }
 
 func execC17(sc *Scenario, env *Env) *Result {
@@ -300,7 +299,42 @@ func execC17(sc *Scenario, env *Env) *Result {
 				argv = append(argv, o...)
 			}
 			cmd := exec.Command(bin, argv...)
-			out, err := cmd.CombinedOutput()
+			var onStarted func(c *exec.Cmd) bool
+			switch {
+			case sc.Params["nodefault"] == "kill" && withLog:
+				// the job is killed while its first runs are under way (scancel, node failure) and the same range is started
+				// again: the second invocation must execute its whole range; only its output is judged
+				onStarted = func(c *exec.Cmd) bool { c.Process.Kill(); return true }
+			case sc.Params["nodefault"] == "rewrite" && withLog && wit != nil:
+				// the batch file is rewritten in place (same inode, same length) while the job is under way, every line now
+				// naming another soil id: the job executes the lines it was started with
+				onStarted = func(c *exec.Cmd) bool {
+					if f, err := os.OpenFile(bf, os.O_WRONLY, 0); err == nil {
+						f.Write([]byte(strings.ReplaceAll(content, "soilId=q", "soilId=r")))
+						f.Close()
+					}
+					return false
+				}
+			}
+			if onStarted != nil && sc.Params["nodefault"] == "kill" {
+				if _, kerr := runChild(cmd, 2*time.Minute, onStarted); kerr == errChildTimeout {
+					viol("real-binary", "node-did-not-terminate:real-binary", "killed job did not end")
+				}
+				res.add("fault.node-killed-and-range-started-again", 1)
+				cmd = exec.Command(bin, argv...)
+				onStarted = nil
+			}
+			outS, err := runChild(cmd, 2*time.Minute, onStarted)
+			if sc.Params["nodefault"] == "rewrite" && onStarted != nil {
+				os.WriteFile(bf, []byte(content), 0o644) // the next job gets the original file
+				res.add("fault.batch-file-rewritten-in-place-during-the-job", 1)
+			}
+			out := []byte(outS)
+			if err == errChildTimeout {
+				viol("real-binary", "node-did-not-terminate:real-binary", fmt.Sprintf("hermes2go %s was still running after 2 minutes (its lines fail within milliseconds)", strings.Join(argv, " ")))
+				ok = false
+				break
+			}
 			if err != nil {
 				viol("real-binary", "simulator-binary-failed", fmt.Sprintf("hermes2go %s exited with %v: %s", strings.Join(argv, " "), err, firstLine(lastNonEmpty(string(out)))))
 				ok = false
@@ -451,6 +485,9 @@ func init() {
 			if r.Bool(0.25) {
 				sc.Params["hist"] = "1"
 			}
+			if r.Bool(0.3) {
+				sc.Params["nodefault"] = r.PickS([]string{"kill", "rewrite"})
+			}
 			if r.Bool(0.35) {
 				// a line end on the edge of a read buffer (4 KiB: bufio; 32 KiB: the calculator's own chunks; 64 KiB)
 				sc.Params["alignline"] = fmt.Sprint(r.Intn(L))
@@ -464,7 +501,7 @@ func init() {
 		Chunk:      12,
 		NonTrivial: func(res *Result) bool { return res.Stats["nodes.run"] > 1 },
 		Rule:       "one (lines, nodes) pair per evaluation: exhaustive over 1..12 x 1..12 (thorough: 1..40 x 1..40) plus random pairs up to 2000 lines and 64 nodes; the batch file is generated with LF, CRLF or mixed endings, optional blank lines, optional missing final line break, optionally one line of 4-60 KiB, and in a quarter of the scenarios the calculator has been run before on another batch file of the same name (the present one moved into place with an older modification time); the real calculator binary (built from the tree) is run as a child process for -size and -list; each printed range is executed by a simulated node: a fresh session running the shipped dispatcher under the seeded scheduler with the indices main() derives from -lines a-b, on the lines main() would read; oracles: number of ranges = reported array size, ranges contiguous from 1 to the last line, multiset of executed log ids = every non-empty line exactly once; non-trivial = more than one node ran",
-		ReachKeys:  []string{"nodes.run", "reach.more-nodes-than-lines", "reach.remainder", "reach.line-end-on-buffer-edge", "reach.batch-file-above-32k", "nodes.without-logoutput", "nodes.real-binary-without-logoutput", "reach.mixed-line-endings", "reach.line-longer-than-4k", "reach.witness-lines", "fault.calculator-ran-before-on-another-file-of-this-name"},
+		ReachKeys:  []string{"nodes.run", "reach.more-nodes-than-lines", "reach.remainder", "reach.line-end-on-buffer-edge", "reach.batch-file-above-32k", "nodes.without-logoutput", "nodes.real-binary-without-logoutput", "reach.mixed-line-endings", "reach.line-longer-than-4k", "reach.witness-lines", "fault.calculator-ran-before-on-another-file-of-this-name", "fault.node-killed-and-range-started-again", "fault.batch-file-rewritten-in-place-during-the-job"},
 		Assumptions: []string{
 			"the scheduled nodes use a re-implementation of main()'s flag parsing and batch-file reading (stub); every scenario with at most 64 ranges is therefore executed a second time through the shipped simulator binary with real -batch/-lines flags (unscheduled) and judged by the same exactly-once oracle",
 			"lines are cheap failing lines (missing project argument) so that thousands of node runs fit in the budget; their log ids are read from the dispatcher's own output",
